@@ -8,9 +8,11 @@ usage: cache_x.py --seed S --depth D --nrandom N --out FILE
 from __future__ import annotations
 
 import argparse
+import copy
 import itertools
 import json
 import os
+import pickle
 import random
 import subprocess
 import sys
@@ -46,10 +48,19 @@ def unval(x):
     for k, y in VALUES.items():      # identity: every stored value is a distinct object
         if y is x:
             return k
+    if isinstance(x, list) and len(x) == 2 and x[0] == "v":      # a deep copy / unpickled copy of a truthy value
+        return x[1]
     return -999
 
 
-def observe(c):
+LAZY = [False]
+
+
+def observe(c, last=True):
+    # len() and iteration are public operations that themselves drop stale entries; in LAZY cases only the counters are read
+    # between steps (no side effect), so that a lookup really is the FIRST operation after a grammar change
+    if LAZY[0] and not last:
+        return f"?|?|{c.hits}|{c.misses}"
     return f"{len(c)}|{','.join(str(k[1]) for k in c)}|{c.hits}|{c.misses}"
 
 
@@ -62,7 +73,19 @@ def run_impl(dflt, args, ops):
     finally:
         ParseCache.max_cache_size = saved
     out = [[] for _ in caches]
-    for tgt, op in ops:
+    for step_i, (tgt, op) in enumerate(ops):
+        last = step_i == len(ops) - 1
+        if op[0] == "copy":
+            # a cache made WITHOUT the constructor (copy.deepcopy / pickle): it is a live cache like any other — same entries and
+            # counters as its original at this point, listed by ParseCache.list(), emptied by clear_caches()
+            src, how = op[1], op[2]
+            new = copy.deepcopy(caches[src]) if how == 0 else pickle.loads(pickle.dumps(caches[src]))
+            caches.append(new)
+            out.append(["skip"] * len(out[0]))
+            listed = any(x is new for x in ParseCache.list())
+            for j, c in enumerate(caches):
+                out[j].append(("-" if listed or j != len(caches) - 1 else "UNLISTED") + "|" + observe(c, last))
+            continue
         ret = ["-"] * len(caches)
         try:
             if op[0] == "g":
@@ -83,16 +106,20 @@ def run_impl(dflt, args, ops):
             ret[tgt] = "EXC:" + type(e).__name__
         for j, c in enumerate(caches):
             try:
-                out[j].append(ret[j] + "|" + observe(c))
+                out[j].append(ret[j] + "|" + observe(c, last))
             except Exception as e:  # noqa: BLE001
                 out[j].append("EXC:" + type(e).__name__)
     return [";".join(x) + ";" for x in out]
 
 
-def model_line(dflt, arg, ops, j):
+def model_line(dflt, arg, ops, j, copy_of=None):
+    """copy_of = (src, step): cache j was made at that step as a copy of cache src; its history is src's up to there"""
     toks = ["CACHE", str(-1 if dflt is None else dflt), str(-1 if arg is None else arg), str(len(ops))]
-    for tgt, op in ops:
-        if tgt is not None and tgt != j:
+    for i, (tgt, op) in enumerate(ops):
+        own = j if (copy_of is None or i > copy_of[1]) else copy_of[0]
+        if op[0] == "copy":
+            toks.append("n")
+        elif tgt is not None and tgt != own:
             toks.append("n")
         elif op[0] in ("g", "d"):
             toks += [op[0], str(op[1])]
@@ -118,14 +145,14 @@ def gen_exhaustive(depth, nkeys=3):
         yield [(0 if alphabet(nkeys, i)[x][0] not in "cv" else None, alphabet(nkeys, i)[x]) for i, x in enumerate(seq)]
 
 
-def gen_random(rng, n, ncaches):
+def gen_random(rng, n, ncaches, nkeys=5, limits=(None, 0, 1, 2, 3, 4), truthy_only=False):
     ops = []
     for i in range(n):
         r = rng.random()
-        k = rng.randint(1, 5)
+        k = rng.randint(1, nkeys)
         t = rng.randrange(ncaches)
         if r < 0.35:
-            ops.append((t, ("s", k, 1000 + i)))
+            ops.append((t, ("s", k, 1000 + 3 * i + 1 if truthy_only else 1000 + i)))
         elif r < 0.75:
             ops.append((t, ("g", k)))
         elif r < 0.85:
@@ -135,7 +162,7 @@ def gen_random(rng, n, ncaches):
         elif r < 0.95:
             ops.append((None, ("v",)))
         else:
-            ops.append((t, ("m", rng.choice([None, 0, 1, 2, 3, 4]))))
+            ops.append((t, ("m", rng.choice(list(limits)))))
     return ops
 
 
@@ -157,10 +184,39 @@ def main():
         dflt = rng.choice([None, None, 1, 2, 3])
         args = [rng.choice([None, None, 1, 2, 3, 4]) for _ in range(nc)]
         cases.append((dflt, args, gen_random(rng, rng.randint(5, 60), nc), "random"))
+    # large limits: eviction must remove exactly ONE entry, the least recently used, also when the limit is 64, 100, 128 ...
+    for _ in range(max(6, a.nrandom // 25)):
+        lim = rng.choice([63, 64, 65, 96, 100, 128])
+        ops = [(0, ("s", k, 5000 + k)) for k in range(1, lim + 1)]            # fill up to the limit
+        ops += gen_random(rng, rng.randint(60, 160), 1, nkeys=lim + 40, limits=(lim, lim - 1, lim + 7, 64, 32))
+        cases.append((None, [lim], ops, "large-limit"))
+    # caches that were not made by the constructor
+    copies = {}
+    for _ in range(max(10, a.nrandom // 10)):
+        nc = rng.choice([1, 2])
+        args = [rng.choice([None, None, 2, 3, 4]) for _ in range(nc)]
+        ops = gen_random(rng, rng.randint(8, 40), nc, truthy_only=True)
+        t = rng.randint(1, len(ops) - 1)
+        src = rng.randrange(nc)
+        ops.insert(t, (None, ("copy", src, rng.randrange(2))))
+        ops = [(tg if tg is not None or op[0] in "cv" or op[0] == "copy" else tg, op) for tg, op in ops]
+        # after the copy, some operations go to the new cache (index nc)
+        ops = ops[: t + 1] + [((nc if (tg is not None and rng.random() < 0.4) else tg), op) for tg, op in ops[t + 1:]]
+        copies[len(cases)] = (src, t, args[src])
+        cases.append((None, args, ops, "copied-cache"))
     lines, expect = [], []
-    stats = {"ops": {}, "keyerrors": 0, "evictions_seen": 0, "cases": len(cases), "steps": 0}
-    for dflt, args, ops, kind in cases:
+    stats = {"ops": {}, "keyerrors": 0, "evictions_seen": 0, "cases": len(cases), "steps": 0, "large_limit_cases": 0, "copied_cache_cases": 0}
+    for ci, (dflt, args, ops, kind) in enumerate(cases):
+        LAZY[0] = kind != "exhaustive" and ci % 2 == 1
+        stats["lazy_observation_cases"] = stats.get("lazy_observation_cases", 0) + LAZY[0]
         impl = run_impl(dflt, args, ops)
+        stats["large_limit_cases"] += kind == "large-limit"
+        stats["copied_cache_cases"] += kind == "copied-cache"
+        if ci in copies:
+            src, t, arg = copies[ci]
+            j = len(args)
+            lines.append(model_line(dflt, arg, ops, j, copy_of=(src, t)))
+            expect.append((dflt, args, ops, (j, t), impl[j], kind))
         for _, op in ops:
             stats["ops"][op[0]] = stats["ops"].get(op[0], 0) + 1
         stats["steps"] += len(ops)
@@ -176,9 +232,15 @@ def main():
     distinct = set()
     for (dflt, args, ops, j, impl, kind), model in zip(expect, outs):
         distinct.add(impl)
-        if impl != model:
+        a1, b1 = impl.split(";"), model.split(";")
+        if isinstance(j, tuple):     # a copied cache exists from step t on only
+            j, t0_ = j
+            a1 = b1[:t0_] + a1[t0_:]
+        # lazily observed steps carry "?" for the fields that were not read
+        b1 = ["|".join(y if x != "?" else "?" for x, y in zip(sa.split("|"), sb.split("|"))) if sa.count("|") == sb.count("|") else sb
+              for sa, sb in zip(a1, b1)] + b1[len(a1):]
+        if a1 != b1:
             # first differing step
-            a1, b1 = impl.split(";"), model.split(";")
             step = next((i for i, (x, y) in enumerate(zip(a1, b1)) if x != y), min(len(a1), len(b1)))
             mism.append({"dflt": dflt, "args": args, "ops": ops[: step + 1], "cache": j, "step": step,
                          "impl": a1[step] if step < len(a1) else None,
